@@ -216,6 +216,20 @@ func main() {
 		wits = append(wits, hr.Witnesses...)
 		if *verbose {
 			logf("== %s: paths=%d completed=%d ended=%d queries=%d obligations=%d sat=%d wall=%.1fs", n, hr.Stats.Paths, hr.Stats.Completed, hr.Stats.Ended, hr.Stats.Queries, hr.Stats.Obligations, hr.Stats.Sat, hr.Wall.Seconds())
+			type kv struct {
+				k string
+				v int
+			}
+			var fk []kv
+			for k, v := range hr.Stats.Forks {
+				fk = append(fk, kv{k, v})
+			}
+			sort.Slice(fk, func(i, j int) bool { return fk[i].v > fk[j].v })
+			for i, f := range fk {
+				if i < 25 {
+					logf("   forks: %6d  %s", f.v, f.k)
+				}
+			}
 			for _, k := range sortedKeys(hr.Stats.Panics) {
 				logf("   panic observed: %s x%d", k, hr.Stats.Panics[k])
 			}
